@@ -17,7 +17,7 @@ RULE = ('one case = one real `-T file --threads k` run over 2-3 scripted servers
         'plus gated 3-target runs with --threads 2 in both gate orders; thorough: all ordered triples, threads 1/2/3/32, every gate permutation, two hash seeds.  The in-process monitor records (thread, target, table pristine at entry) '
         'so the evidence lists the distinct "previous target on this thread -> this target" contexts actually produced.  Non-trivial: at least one target ran on a thread that had already served another target, or two targets ran concurrently; '
         'distinct = distinct (target list, threads, gate order, format)')
-REQUIRED = {'multi_runs': 40, 'blocks_compared': 80, 'thread_reuse_contexts': 30, 'json_runs': 8, 'policy_runs': 4, 'gated_runs': 4, 'master_digest_checks': 40}
+REQUIRED = {'default_port_entries': 6, 'multi_runs': 40, 'blocks_compared': 80, 'thread_reuse_contexts': 30, 'json_runs': 8, 'policy_runs': 4, 'gated_runs': 4, 'master_digest_checks': 40}
 ASSUMPTIONS = ['a per-target block is compared after removing the "(gen) target:" line and surrounding blank lines; a JSON element after removing "target"',
                'the table-pristine observation is diagnostic only: the verdict is decided on output equality']
 MANIFEST = {
@@ -48,6 +48,11 @@ def cases(tier, seed):
         for i, (a, b) in enumerate(pairs):
             for th in (2, 3, 32):
                 cs.append({'kind': 'seq', 'targets': [a, b, a], 'threads': th, 'fmt': 'text' if i % 2 else 'json'})
+    # one entry relies on the default port given with -p while the others spell their own: which entry comes first must not matter
+    pm = [('clean', 'rsa1024', 'terrapin'), ('gex1024', 'clean', 'openssh-old'), ('terrapin', 'clean', 'clean')]
+    for i, names in enumerate(pm if tier == 'quick' else list(itertools.permutations(['clean', 'rsa1024', 'terrapin', 'gex2048-openssh'], 3))):
+        for bare in range(3):
+            cs.append({'kind': 'portmix', 'targets': list(names), 'bare': bare, 'threads': [1, 2][(i + bare) % 2], 'fmt': 'json' if (i + bare) % 3 == 0 else 'text'})
     pol_pairs = [('clean', 'rsa1024'), ('rsa1024', 'clean'), ('gex1024', 'clean'), ('clean', 'clean'), ('terrapin', 'cert-small-ca'), ('cert-small-ca', 'clean')]
     for i, (a, b) in enumerate(pol_pairs if tier == 'quick' else list(itertools.permutations([x for x in A if x not in ('ssh1', 'no-probes')], 2))):
         cs.append({'kind': 'policy', 'targets': [a, b], 'threads': 1 if i % 3 else 2, 'fmt': 'json' if i % 2 else 'text'})
@@ -104,7 +109,13 @@ def run_case(c):
                 f.write(clean_policy_text())
             extra = ['-P', pf]
             counters['policy_runs'] = 1
-        res = multi.run_multi(targets, c['threads'], c['fmt'], extra=extra, gate_order=c.get('gate_order'), monitors=['calls', 'tables'], tmo=30 if gated else None, hashseed=c.get('hashseed', '0'), timeout=180)
+        file_lines = None
+        if c['kind'] == 'portmix':
+            bare = targets[c['bare']]
+            file_lines = [('127.0.0.1' if t is bare else t.spec) for t in targets]
+            extra = ['-p', str(bare.peer.port)]
+            counters['default_port_entries'] = 1
+        res = multi.run_multi(targets, c['threads'], c['fmt'], extra=extra, gate_order=c.get('gate_order'), monitors=['calls', 'tables'], tmo=30 if gated else None, hashseed=c.get('hashseed', '0'), timeout=180, file_lines=file_lines)
         r = res['run']
         if r.timed_out:
             return {'verdict': 'inconclusive', 'why': 'watchdog'}
